@@ -202,8 +202,19 @@ def rphys_invalid(r):
                 sl.append((rphys_va(r, 2, sl[0][0].rows_() if sl else 0), []))
     elif k == 1:
         n, v, d = (p.tmd[0] if p.tmd else (b"t", rsingle(r, 2), None))
-        p.tmd.append((n, rsingle(r, v.tid), d))
-        p.tmd.append((n + b"\0", rsingle(r, v.tid), None))
+        if not p.tmd:
+            p.tmd.append((n, v, d))
+        # the twin right behind, or some entries apart; with the same bytes or differing behind a NUL
+        for _ in range(r.choice([0, 0, 1, 2])):
+            t2 = r.choice(ALL_TIDS)
+            p.tmd.append((b"sep%d" % len(p.tmd), rsingle(r, t2), None))
+        shape = r.randrange(3)
+        if shape != 1:
+            p.tmd.append((n, rsingle(r, v.tid), d))
+        if shape != 0:
+            p.tmd.append((n + b"\0", rsingle(r, v.tid), None))
+        if r.random() < 0.3:
+            p.tmd.append((b"tail", rsingle(r, 2), None))
     elif k == 2 and p.slices and p.slices[0]:
         sl = r.choice(p.slices)
         i = r.randrange(len(sl))
